@@ -53,9 +53,23 @@ def state_of(pid):
         return None
 
 
+def client_main():
+    """a client of its own (a separate process) which creates workers and is then killed by the scenario: its workers are orphans"""
+    import logging
+    logging.disable(logging.CRITICAL)
+    from pyworkers.remote import RemoteWorker
+    addr = tuple(json.loads(sys.argv[2]))
+    ws = [RemoteWorker({'coop': coop, 'swallow': swallow}[s], host=addr) for s in json.loads(sys.argv[3])]
+    print('C12CLIENT ' + json.dumps([w.pid for w in ws]))
+    sys.stdout.flush()
+    time.sleep(120)
+
+
 def main():
     import logging
     logging.disable(logging.CRITICAL)
+    if sys.argv[1] == '--client':
+        return client_main()
     cfg = json.loads(sys.argv[1])
     flag = f'/var/tmp/c12_slow_{os.getpid()}.flag'
     os.environ['C12_SLOW_CHILD'] = flag
@@ -96,6 +110,22 @@ def main():
         else:
             time.sleep(delay)
         pids = [w.pid for w in workers]
+        if cfg.get('orphans'):
+            # workers of another client, which crashes (SIGKILL) while they are running; life goes on for the server: more clients come
+            import subprocess
+            cp = subprocess.Popen([sys.executable, '-m', 'harness.c12_driver', '--client', json.dumps(list(addr)), json.dumps(cfg['orphans'])],
+                                  stdout=subprocess.PIPE, stderr=subprocess.DEVNULL, text=True, env=dict(os.environ))
+            line = cp.stdout.readline()
+            out['orphan_pids'] = json.loads(line[len('C12CLIENT '):]) if line.startswith('C12CLIENT ') else None
+            time.sleep(0.5)
+            cp.kill(); cp.wait()
+            time.sleep(0.5)
+            for _ in range(cfg.get('late_clients', 0)):
+                lw = RemoteWorker(quick, host=addr)
+                lw.wait(10)
+            time.sleep(0.3)
+            if out['orphan_pids'] is None:
+                out['errors'].append('the second client did not come up')
         starting = []
         if cfg.get('starting'):
             open(flag, 'w').write('slow')
